@@ -58,7 +58,8 @@ Next ==
                     \/ /\ Ev.res.k = "err" /\ Ev.res.e = "src" /\ Un(got) /\ (closed >= 1 \/ \E i \in 1..n : srcSt[i] = 2)
                     \/ /\ Ev.res.k = "err" /\ Ev.res.e = "ctx" /\ Un(got) /\ (closed >= 1 \/ pend[Ev.id].ctx \in cancelled)
                     \/ /\ Ev.res.k = "err" /\ Ev.res.e = "closedpipe" /\ Un(got) /\ closed >= 1
-               ELSE closed' = 2 /\ Un(got)
+               ELSE /\ closed' = 2 /\ Un(got)
+                    /\ (kind = "stream" => \A i \in 1..n : srcClosed[i] = 1)   \* by the time Close returns every input has been closed (C09)
             /\ Un(<<kind, n, started, closedIn, demand, returned, eof, srcSt, srcClosed, cancelled, gotD>>)
        [] Ev.ev = "q" ->
             /\ Un(<<kind, n, started, got, closedIn, demand, returned, eof, srcSt, srcClosed, pend, closed, cancelled, gotD>>)
